@@ -5,6 +5,9 @@
 //@harness name=mul_unit_weight_identity tier=quick label=bounded(vector=2) props=C10
 //@harness name=mul_add_msd_presence tier=quick label=bounded(vector=1) props=C10
 //@harness name=from_linear_split tier=quick label=bounded(len<=5) props=C04
+//@harness name=hole_mul_params_contract tier=quick label=bounded(vector=2) props=C10 timeout=600
+//@harness name=find_tree_index_is_first_match tier=quick label=bounded(trees=3) props=C04 timeout=600
+//@harness name=get_index_uses_tree_state tier=quick label=bounded(trees=2,single-leaf) props=C04 timeout=600
 use super::*;
 
 impl Model {
@@ -89,4 +92,76 @@ fn from_linear_split() {
     assert!(p.parameters[j].1.to_bits() == a[j + k].to_bits());
     if n % 2 == 1 { assert!(p.msd.unwrap().to_bits() == a[2 * k].to_bits()); } else { assert!(p.msd.is_none()); }
     kani::cover!(n == 5);
+}
+
+fn leaf_tree(state: usize, pdf_index: usize) -> Tree {
+    Tree { state, nodes: vec![crate::model::voice::tree::TreeNode::Leaf { pdf_index }] }
+}
+
+/// contracted callee of Verus unit `tree`: the index of the FIRST tree whose declared state equals
+/// the requested one, None if there is none (trees are not assumed to be listed in state order)
+#[kani::proof]
+#[kani::unwind(6)]
+fn find_tree_index_is_first_match() {
+    let st: [usize; 3] = kani::any();
+    let want: usize = kani::any();
+    let m = Model::new(vec![leaf_tree(st[0], 1), leaf_tree(st[1], 1), leaf_tree(st[2], 1)], vec![]);
+    let r = m.find_tree_index(want);
+    let expect = if st[0] == want { Some(0) } else if st[1] == want { Some(1) } else if st[2] == want { Some(2) } else { None };
+    assert!(r == expect);
+    kani::cover!(r == Some(2));
+    std::mem::forget(m);
+}
+
+fn any_label() -> Label {
+    use jlabel::*;
+    Label {
+        phoneme: Phoneme { p2: None, p1: None, c: None, n1: None, n2: None },
+        mora: None, word_prev: None, word_curr: None, word_next: None,
+        accent_phrase_prev: None, accent_phrase_curr: None, accent_phrase_next: None,
+        breath_group_prev: None, breath_group_curr: None, breath_group_next: None,
+        utterance: Utterance { breath_group_count: 1, accent_phrase_count: 1, mora_count: 1 },
+    }
+}
+
+/// paired API-level form: with two single-leaf trees in arbitrary state order, get_index reports
+/// (position of the matching tree + 2, that tree's leaf)
+#[kani::proof]
+#[kani::unwind(6)]
+fn get_index_uses_tree_state() {
+    let st: [usize; 2] = kani::any();
+    let want: usize = kani::any();
+    kani::assume(st[0] != st[1]);
+    let m = Model::new(vec![leaf_tree(st[0], 7), leaf_tree(st[1], 9)], vec![]);
+    let label = any_label();
+    let (t, p) = m.get_index(want, &label);
+    if want == st[0] { assert!(t == Some(2) && p == Some(7)); }
+    else if want == st[1] { assert!(t == Some(3) && p == Some(9)); }
+    else { assert!(t.is_none()); }
+    kani::cover!(want == st[1]);
+    std::mem::forget(m);
+    std::mem::forget(label);
+}
+
+impl ModelParameter {
+    /// hole `mul_params` of Verus unit interp, pasted verbatim
+    fn verif_mul_params(&self, weight: f64) -> Vec<MeanVari> {
+        let parameters: Vec<MeanVari> = /*@HOLE mul_params@*/;
+        parameters
+    }
+}
+
+/// the iterator chain of ModelParameter::mul scales every (mean, variance) pair by the weight, in order
+#[kani::proof]
+#[kani::unwind(5)]
+fn hole_mul_params_contract() {
+    let a: [f64; 4] = kani::any();
+    let sel: u8 = kani::any();
+    let w: f64 = match sel { 0 => 0.5, 1 => 2.0, 2 => -1.0, 3 => 0.0, _ => 1.0 };
+    let p = ModelParameter { parameters: vec![MeanVari(a[0], a[1]), MeanVari(a[2], a[3])], msd: None };
+    let r = p.verif_mul_params(w);
+    assert!(r.len() == 2);
+    assert!(r[0].0.to_bits() == (a[0] * w).to_bits() && r[0].1.to_bits() == (a[1] * w).to_bits());
+    assert!(r[1].0.to_bits() == (a[2] * w).to_bits() && r[1].1.to_bits() == (a[3] * w).to_bits());
+    kani::cover!(sel == 2);
 }
